@@ -94,6 +94,12 @@ fn all_styles(c: [i64; 4]) -> Vec<StyleSpec> {
             }
         }
     }
+    // text colour EQUAL to the background colour ("solid" text), with every decoration combination
+    for ul in 0..3 {
+        for st in 0..3 {
+            v.push(StyleSpec { tc: c[0], bg: c[0], ul: (ul, c[2]), st: (st, c[3]) });
+        }
+    }
     v
 }
 
@@ -181,7 +187,9 @@ fn custom_case(seed: u64, nlines: usize) -> (FontSpec, Vec<LineSpec>) {
     let (cw, ch, s) = (rng.u32r(1, 9), rng.u32r(1, 12), rng.u32r(0, 3));
     // mapping: singles and ranges over several blocks, sometimes duplicated, rarely ill-formed
     // (pools include C0 control characters and DEL: legal in a mapping, e.g. a code page 437 font)
-    let pools: [u32; 8] = [0x61, 0x30, 0x3b1, 0x4e00, 0x1F600, 0x01, 0x10, 0x7b];
+    // ... and code points on both sides of the surrogate gap U+D800..U+DFFF (not chars: a range spanning it has 2048
+    // fewer characters than code points)
+    let pools: [u32; 10] = [0x61, 0x30, 0x3b1, 0x4e00, 0x1F600, 0x01, 0x10, 0x7b, 0xd7f0, 0xe000];
     let mut map: Vec<u32> = vec![];
     let mut exp: Vec<u32> = vec![];
     // a third of the mappings start like every built-in one: with the complete ASCII range
@@ -189,9 +197,15 @@ fn custom_case(seed: u64, nlines: usize) -> (FontSpec, Vec<LineSpec>) {
         map.extend_from_slice(&[0, 0x20, 0x7f]);
         exp.extend(0x20..=0x7f);
     }
+    // one mapping in eight has a range that spans the surrogate gap, followed by further entries
+    if rng.chance(1, 8) {
+        let (lo, hi) = (0xd7ff - rng.u32r(0, 3), 0xe000 + rng.u32r(0, 3));
+        map.extend_from_slice(&[0, lo, hi]);
+        exp.extend((lo..=hi).filter(|c| char::from_u32(*c).is_some()));
+    }
     let nent = rng.usize(0, 6);
     for _ in 0..nent {
-        let base = *rng.pick(&pools) + rng.u32r(0, 12);
+        let base = *rng.pick(&pools) + rng.u32r(0, 9);
         if !exp.is_empty() && rng.chance(1, 6) {
             let d = *rng.pick(&exp);
             map.push(d);
@@ -245,7 +259,7 @@ fn custom_case(seed: u64, nlines: usize) -> (FontSpec, Vec<LineSpec>) {
     };
     let col = distinct_colours(&mut rng);
     let combos = all_styles(col);
-    let off = rng.usize(0, 35);
+    let off = rng.usize(0, 44);
     let mut lines = vec![];
     for k in 0..nlines {
         let n = rng.usize(0, 6);
@@ -263,8 +277,9 @@ fn custom_case(seed: u64, nlines: usize) -> (FontSpec, Vec<LineSpec>) {
             })
             .collect();
         // (a line feed would split the line of a Text)
-        let chars: Vec<u32> = chars.into_iter().map(|c| if c == 10 { 11 } else { c }).collect();
-        lines.push(LineSpec { chars, pos: (rng.i32(-30, 30), rng.i32(-30, 30)), sty: combos[(k + off) % 36], api: (k % 2) as u8 });
+        // (... and surrogate code points are not characters)
+        let chars: Vec<u32> = chars.into_iter().map(|c| if c == 10 { 11 } else if char::from_u32(c).is_none() { 0xe000 + (c & 7) } else { c }).collect();
+        lines.push(LineSpec { chars, pos: (rng.i32(-30, 30), rng.i32(-30, 30)), sty: combos[(k + off) % combos.len()], api: (k % 2) as u8 });
     }
     (font, lines)
 }
